@@ -126,6 +126,12 @@ func oracleC01(w *World, op *Op) {
 	if sub.IsPre && sub.Issuers[0].IsPreIssuer() {
 		s.Probe("sct.ok.preissuer")
 	}
+	for _, ic := range sub.Issuers {
+		if ic.Spec.SPKIForm != "" {
+			s.Probe("sct.ok.issuer-spki-" + ic.Spec.SPKIForm)
+			break
+		}
+	}
 	// (3) the leaf handed to the backend
 	var ql *BackendCall
 	for _, c := range op.Calls {
